@@ -61,7 +61,7 @@ func vfGenC14(t *rapid.T) vfC14Prog {
 	// a seventh of the programs concentrate on one kind of operation (so that calls of that kind really overlap)
 	focus := ""
 	if rapid.IntRange(0, 6).Draw(t, "focused") == 0 {
-		focus = rapid.SampledFrom([]string{"export", "export", "sign", "next", "remark", "gen"}).Draw(t, "focus")
+		focus = rapid.SampledFrom([]string{"export", "export", "sign", "next", "remark", "gen", "lockunlock", "lockunlock"}).Draw(t, "focus")
 		p.NKs = 2
 	}
 	for i := 0; i < nt; i++ {
@@ -72,6 +72,9 @@ func vfGenC14(t *rapid.T) vfC14Prog {
 			if focus != "" && rapid.IntRange(0, 4).Draw(t, "onFocus") != 0 {
 				op.K = focus
 				op.Ks = (i + j) % 2
+				if focus == "lockunlock" {
+					op.K = []string{"lock", "unlock"}[(i+j)%2]
+				}
 			}
 			switch op.K {
 			case "next":
@@ -453,6 +456,22 @@ func vfC14Run(p vfC14Prog, c *vlib.Ctx) *vlib.Failure {
 	if res == porcupine.Unknown {
 		c.Label("linearizability-timeout")
 	}
+	// quiescent state: the lock flag and the key material of every keystore agree (a state no sequence of Lock and
+	// Unlock calls can produce otherwise)
+	locked := kmc.IsLocked()
+	for k := 0; k < p.NKs; k++ {
+		for b := 0; b < 2; b++ {
+			if len(keys[k][b]) == 0 {
+				continue
+			}
+			h := make([]byte, 32)
+			h[0] = byte(k + 1)
+			_, err := kmc.SignHash(keys[k][b][0].PubKey(), h)
+			if (err != nil) != locked {
+				return vlib.Failf("lock-state-inconsistent", "after the concurrent phase IsLocked()=%v but signing with a key of keystore %d (branch %d) returns %v", locked, k, b, err)
+			}
+		}
+	}
 	// final counters after reopen
 	var want [2][2]int = init.Cnt
 	for _, h := range hist {
@@ -501,7 +520,7 @@ func vfC14Run(p vfC14Prog, c *vlib.Ctx) *vlib.Failure {
 
 var vfC14Spec = vlib.Spec[vfC14Prog]{
 	Prop: "C14", Name: "concurrent-programs", NoShrink: true,
-	Rule: "generated concurrent programs: 2-4 goroutines x 1-6 operations from {plot key issuance, next addresses, sign hash/message, verify, ordinal/address lookup, listings, remark change/read, export, lock, unlock, IsLocked} on 1-2 keystores (in a third of the programs after a private passphrase change and change back in the same process), start barrier, generated yields and GOMAXPROCS in {1,2,4,8}; built with -race; oracles: race detector (reports attributed to repository frames by the driver), no panic, porcupine linearizability of the recorded call/return history against a sequential wallet model, counters after reopen; non-trivial = at least two goroutines contain a mutating operation; distinct = distinct program JSON",
+	Rule: "generated concurrent programs: 2-4 goroutines x 1-6 operations from {plot key issuance, next addresses, sign hash/message, verify, ordinal/address lookup, listings, remark change/read, export, lock, unlock, IsLocked} on 1-2 keystores (in a third of the programs after a private passphrase change and change back in the same process), start barrier, generated yields and GOMAXPROCS in {1,2,4,8}; built with -race; oracles: race detector (reports attributed to repository frames by the driver), no panic, porcupine linearizability of the recorded call/return history against a sequential wallet model, lock flag and key material of every keystore agree at quiescence, counters after reopen; non-trivial = at least two goroutines contain a mutating operation; distinct = distinct program JSON",
 	Gen:  vfGenC14, Run: vfC14Run,
 }
 
